@@ -5,7 +5,8 @@ usage: ref_c15.py <cases-file>
 
 Each line of the cases file is   <kind> <input> <expected>
 where input/expected are hex strings ("-" = empty) or, when the kind is prefixed with "F:",
-paths of raw binary files. `expected` was produced by the harness' C++ reference
+paths of raw binary files, or, when the kind is prefixed with "Z:", input is a decimal number n and
+stands for n zero bytes (messages too large to write out). `expected` was produced by the harness' C++ reference
 implementation; this script recomputes it with the standard library and reports every
 disagreement. Exit 0 = all agree, 1 = mismatch, 2 = usage / malformed file.
 
@@ -41,6 +42,17 @@ def compute(kind, data):
     raise ValueError('unknown kind ' + kind)
 
 
+def compute_zeros(kind, n):
+    if kind != 'sha1': raise ValueError('Z: is only defined for sha1')
+    h = hashlib.sha1()
+    chunk = bytes(1 << 22)
+    while n > 0:
+        k = min(n, len(chunk))
+        h.update(chunk if k == len(chunk) else chunk[:k])
+        n -= k
+    return h.digest()
+
+
 def main():
     if len(sys.argv) != 2:
         print(__doc__); return 2
@@ -52,13 +64,17 @@ def main():
             if len(p) != 3:
                 print('MALFORMED line %d' % ln); return 2
             kind = p[0]
+            zeros = None
             if kind.startswith('F:'):
                 kind = kind[2:]
                 data = open(p[1], 'rb').read(); exp = open(p[2], 'rb').read()
+            elif kind.startswith('Z:'):
+                kind = kind[2:]
+                zeros = int(p[1]); data = b'<%d zero bytes>' % zeros; exp = unhex(p[2])
             else:
                 data = unhex(p[1]); exp = unhex(p[2])
             try:
-                got = compute(kind, data)
+                got = compute_zeros(kind, zeros) if zeros is not None else compute(kind, data)
             except Exception as e:  # the reference side must only be given well-formed inputs
                 got = None
                 print('ERROR line %d kind %s: %s' % (ln, kind, e))
